@@ -7,3 +7,6 @@ open Just.Props.C17
 #print axioms private_still_runnable
 #print axioms show_is_run_target
 #print axioms old_show_disagrees
+#print axioms doc_displayed_is_declared
+#print axioms entries_are_declared
+#print axioms alias_annotation_iff
